@@ -7,13 +7,15 @@ under Drivers/ and exports `handle : List String → Option String` (`none` = no
 import Iso8583.Drivers.Layers
 import Iso8583.Drivers.Fields
 import Iso8583.Drivers.Net
+import Iso8583.Drivers.Describe
 
 namespace Iso8583.Driver
 
 def handlers : List (List String → Option String) :=
   [ Iso8583.Drivers.Layers.handle,
     Iso8583.Drivers.Fields.handle,
-    Iso8583.Drivers.Net.handle ]
+    Iso8583.Drivers.Net.handle,
+    Iso8583.Drivers.Describe.handle ]
 
 def runLine (line : String) : String :=
   let toks := line.splitOn " "
